@@ -23,7 +23,7 @@ BINARY = ("ADDER", "SUBSTRACTER", "MULTIPLIER", "ABOVE", "BELOW")
 SCALAR = ("SCALAR_ADDER", "SCALAR_MULTIPLIER", "SCALAR_REV_SUBSTRACTER", "SHIFT")
 AGG = ("SUM", "MIN", "MAX", "AVERAGER")
 EXPR_SHAPES = ("add", "mullit", "litsub", "twotemp", "reflex", "diff", "integ", "xshift",
-               "copy", "three", "absf", "avgdev", "sumfn", "alias", "literal", "xfrom", "tree", "tree")
+               "copy", "three", "absf", "avgdev", "sumfn", "alias", "literal", "xfrom", "tree", "tree", "extvar")
 NOEQ_SHAPES = ("add", "twotemp", "diff", "mullit", "absf", "avgdev", "tree")
 TREE_FUNCS = {"ABS": "RECTIFIER", "D": "DIFFERENTIATOR", "I": "INTEGRATOR"}
 TREE_AGGS = ("AVG", "SUM", "MIN", "MAX")
@@ -69,7 +69,8 @@ DUP_SAFE_OPS = ("sort", "sort_radix", "remove_list", "remove_obs", "remove_first
 # what a session may do whose observation rows carry values its track does not list (tracks
 # produced by the simplifier): the feature computations of C17, and everything that only moves Obs around
 LOOSE_OK_OPS = DUP_SAFE_OPS + ("abs_curv", "speed", "speed_direct", "ds", "remove")
-C17_OPS = ("abs_curv", "speed", "speed_direct", "ds", "transform", "fork_noise", "add_seconds")
+C17_OPS = ("abs_curv", "speed", "speed_direct", "ds", "transform", "fork_noise", "add_seconds", "speed_smoothed",
+           "coll_speed")
 
 
 def feq(a, b):
@@ -441,6 +442,9 @@ class TrackWorld(World):
         st = {"shape": r.choice(EXPR_SHAPES), "out": self._pick_name(r, m), "a": self._pick_input(r, m),
               "b": self._pick_input(r, m), "c": self._pick_input(r, m),
               "lit": r.choice([2, 3, 0.5, 10]), "api": r.choice(["operate", "getitem"])}
+        if st["shape"] == "extvar":
+            st["kval"] = r.choice([2.0, 3.0, 0.5, -1.0, 10.0])
+            st["a"] = r.choice(["x", "idx", st["a"]])
         if st["shape"] == "tree":
             st["tree"] = self._gen_tree(r, m, r.choice([2, 3, 3, 4, 5, 7, 12, 14]))
             st["ext"] = {"k1": r.choice([2.0, 7.0, 0.5]), "k2": r.choice([0.25, 3.0, -1.5])}
@@ -562,7 +566,7 @@ class TrackWorld(World):
         return {"other": r.randrange(self.cfg["sessions"])}
 
     def _g_concat(self, r, m):
-        return {"other": r.randrange(self.cfg["sessions"])}
+        return {"other": r.randrange(self.cfg["sessions"]), "iadd": r.random() < 0.3}
 
     def _g_mod_n(self, r, m):
         return {"n": r.randint(1, 6)}
@@ -598,6 +602,12 @@ class TrackWorld(World):
 
     def _g_add_seconds(self, r, m):
         return {"sec": r.choice([30, 3600, 86400, -30, 86400 * 20, 1])}
+
+    def _g_speed_smoothed(self, r, m):
+        return {"width": r.choice([1, 2, 3, 40, 100])}
+
+    def _g_coll_speed(self, r, m):
+        return {}
 
     def _g_speed_direct(self, r, m):
         return {}
@@ -1431,6 +1441,11 @@ class TrackWorld(World):
             C = self._col(m, c)
             return "(%s+%s)*(%s-%s)" % (a, b, c, L), \
                 [(u + v) * (w - float(lit)) for u, v, w in zip(A, B, C)], [a, b, c], 3
+        if sh == "extvar":
+            # the same expression text again and again, with another value of the external variable
+            k = float(st.get("kval", 2.0))
+            self._ext = {"k": k}
+            return "%s*k" % a, [v * k for v in A], [a], 1
         if sh == "diff":
             return "D{%s}" % a, self._m_unary("DIFFERENTIATOR", A), [a], 1
         if sh == "integ":
@@ -1505,7 +1520,7 @@ class TrackWorld(World):
                 text = "%s%s=%s" % (out, op, rhs)
                 ntemp += 1
                 self.probe("reflexive_assignment_of_a_compound_expression")
-        ext = getattr(self, "_ext", None) if sh == "tree" else None
+        ext = getattr(self, "_ext", None) if sh in ("tree", "extvar") else None
         if ext:
             self.probe("expression_with_external_variables")
             rv, exc = self.call(t.operate, text, dict(ext))
@@ -2284,7 +2299,13 @@ class TrackWorld(World):
         if same and m["names"]:
             self.probe("concat_with_equal_feature_lists")
         where = "t%d + t%d" % (st.get("s", 0), o)
-        rv = self._derive(st, where, lambda: t + t2, m["obs"] + m2["obs"], m, check_feats=same)
+        if st.get("iadd"):
+            # total = t; total += t2 -- the augmented spelling; t itself (still held by its session) must not grow
+            import operator
+            where = "total = t%d; total += t%d" % (st.get("s", 0), o)
+            rv = self._derive(st, where, lambda: operator.iadd(t, t2), m["obs"] + m2["obs"], m, check_feats=same)
+        else:
+            rv = self._derive(st, where, lambda: t + t2, m["obs"] + m2["obs"], m, check_feats=same)
         if not same and not self.violations and rv is not None and hasattr(rv, "getListAnalyticalFeatures"):
             # the operands list different features (or the same ones in another order): whatever
             # the result lists must still read, for every observation, the value that observation
@@ -2558,6 +2579,87 @@ class TrackWorld(World):
         self.probe("noised_copy_becomes_a_session")
         self._check_all("C17", "noise() (the noised copy: same fixes and features, no curvilinear abscissa of "
                         "the old geometry)")
+
+    def op_speed_smoothed(self, st):
+        """estimate_speed(kernel=width): smoothed speeds.  The call first computes abs_curv and
+        the raw speed; with a width larger than the track it then gives up (prints a warning,
+        returns None) -- what it leaves behind is the *raw* speed, which is judged; an accepted
+        call overwrites the speed with smoothed values, which are adopted and never taken for
+        the definition afterwards."""
+        t, m = self._sess(st)
+        n = len(m["obs"])
+        w = st["width"]
+        if n < 2 or "ds" in m["names"] or not self._sorted(m):
+            raise Skip()
+        had_speed, had_ac = "speed" in m["names"], "abs_curv" in m["names"]
+        fresh_before = (not had_speed) and (not had_ac or m["fresh"].get("abs_curv") == m["geo"])
+        rv, exc = self.call(t.estimate_speed, w)
+        if exc is not None:
+            if isinstance(exc, Exception):
+                # (too few fixes for the window arithmetic: refused; the session ends here)
+                s_ = st.get("s", 0)
+                self.real.pop(s_, None)
+                self.model.pop(s_, None)
+                self.derived.pop(s_, None)
+                return "domain"
+            return self._unexpected("C17", exc, "estimate_speed(kernel)")
+        listed = t.getListAnalyticalFeatures()
+        for nm in ("abs_curv", "speed"):
+            if nm in listed:
+                self._setcol(m, nm, list(t[nm]))
+        refused = n < w
+        if refused:
+            self.stats["fault_fired:rejected_request"] += 1
+            self.probe("smoothed_speed_refused_window_larger_than_track")
+            if "speed" in m["names"] and not had_speed and fresh_before:
+                exp = self._def_speed(m)
+                got = self._col(m, "speed")
+                if any(not close(a, b) for a, b in zip(got, exp)):
+                    self.fail("C17", "speed.definition", "estimate_speed(kernel=%d) was refused (window larger than "
+                              "the track); the speed feature it leaves behind is not the raw speed" % w,
+                              jsonable(exp), jsonable(got))
+                    return
+                m["fresh"]["speed"] = m["geo"]
+        else:
+            m["fresh"]["speed"] = -1                 # smoothed values: never taken for the definition
+            self.probe("smoothed_speed_computed")
+        if "abs_curv" in m["names"] and not had_ac:
+            m["fresh"]["abs_curv"] = m["geo"]
+        self._check_all("C17", "estimate_speed(kernel=%d)" % w)
+
+    def op_coll_speed(self, st):
+        """TrackCollection.addAnalyticalFeature(speed) over the tracks of all sessions: every
+        track of the collection gets its own speeds (tracks are told apart as objects, whatever
+        their user / track identifiers)."""
+        from tracklib.core import TrackCollection
+        from tracklib.algo.analytics import speed
+        sess = [s_ for s_ in sorted(self.model) if len(self.model[s_]["obs"]) >= 2 and not self.model[s_].get("dup_obs")
+                and not self.model[s_].get("loose_rows") and "ds" not in self.model[s_]["names"]]
+        if len(sess) < 2:
+            raise Skip()
+        coll = TrackCollection([self.real[s_] for s_ in sess])
+        _, exc = self.call(coll.addAnalyticalFeature, speed)
+        if exc is not None:
+            return self._unexpected("C17", exc, "TrackCollection.addAnalyticalFeature(speed)")
+        for s_ in sess:
+            t, m = self.real[s_], self.model[s_]
+            if "speed" not in t.getListAnalyticalFeatures():
+                self.fail("C17", "speed.stored", "TrackCollection.addAnalyticalFeature(speed): the track of session %d "
+                          "has no speed" % s_, "speed", t.getListAnalyticalFeatures())
+                return
+            got = list(t["speed"])
+            self._setcol(m, "speed", got)
+            if self._sorted(m):
+                exp = self._def_speed(m)
+                if any(not close(a, b) for a, b in zip(got, exp)):
+                    self.fail("C17", "speed.definition", "TrackCollection.addAnalyticalFeature(speed): speeds of the "
+                              "track of session %d" % s_, jsonable(exp), jsonable(got))
+                    return
+                m["fresh"]["speed"] = m["geo"]
+            else:
+                m["fresh"]["speed"] = -1
+        self.probe("feature_computed_through_a_collection")
+        self._check_all("C17", "TrackCollection.addAnalyticalFeature(speed)")
 
     def op_speed_direct(self, st):
         """The speed algorithm applied through addAnalyticalFeature: always recomputes, so it
